@@ -1661,25 +1661,29 @@ class FlowProposal(RejectionProposal):
 
         # Flow might have exited before any weights were saved.
         if weights_file is not None:
+            loaded = False
             if os.path.exists(weights_file):
                 try:
                     self.flow.reload_weights(weights_file)
+                    loaded = True
                 except Exception as e:
-                    # The weights file may be incomplete if the process was
-                    # killed whilst it was being written, in which case the
-                    # previous weights are still in the `.old` file
                     logger.warning(
                         f"Could not reload weights from {weights_file}: {e}"
                     )
-                    old_weights_file = weights_file + ".old"
-                    if os.path.exists(old_weights_file):
-                        try:
-                            self.flow.reload_weights(old_weights_file)
-                        except Exception as e_old:
-                            logger.warning(
-                                "Could not reload weights from "
-                                f"{old_weights_file}: {e_old}"
-                            )
+            if not loaded:
+                # The weights file may be missing or incomplete if the
+                # process was killed whilst the weights were being saved, in
+                # which case the previous weights are still in the `.old`
+                # file
+                old_weights_file = weights_file + ".old"
+                if os.path.exists(old_weights_file):
+                    try:
+                        self.flow.reload_weights(old_weights_file)
+                    except Exception as e_old:
+                        logger.warning(
+                            "Could not reload weights from "
+                            f"{old_weights_file}: {e_old}"
+                        )
         else:
             logger.warning("Could not reload weights for flow")
 
